@@ -170,8 +170,11 @@ def _run_cl(case):
     def samples_of(en):
         return [M.cl_flat(s, keys) for s in en.samples.iterator()]
 
+    pending = {}
+
     def check(en, xs, where):
-        """value / gradient / metric of `en` against the reference average over xs"""
+        """value / gradient / metric of `en` against the reference average over xs (a pure value offset by the prior energy
+        of the constant keys is remembered and reported after all other checks of the case have passed)"""
         val, g, Mm = _avg(ref, xs, V)
         if isinstance(en.position.domain, ift.MultiDomain):
             if list(en.position.domain.keys()) != vkeys:
@@ -181,13 +184,15 @@ def _run_cl(case):
         dv = got_v - val
         if not abs(dv) <= TOL * _scale(val):
             # is it exactly the prior energy of the constant keys that went missing?
-            miss = float(np.mean([0.5 * float(x[C] @ x[C]) for x in xs])) if C.size else 0.
-            if C.size and abs(dv + miss) <= TOL * _scale(val):
-                return bad("%s: KL value = <H> - <prior energy of the constant keys %s> (off by %.6g): the prior term of constant "
+            I = ref.idx(set(pe) & set(const))      # keys in both lists are inserted first ("invariants")
+            cand = [float(np.mean([0.5 * float(x[K] @ x[K]) for x in xs])) for K in (C, I) if K.size]
+            if any(abs(dv + miss) <= TOL * _scale(val) for miss in cand):
+                pending.setdefault("offset", bad("%s: KL value = <H> - <prior energy of the constant keys %s> (off by %.6g): the prior term of constant "
                            "keys is dropped from the value (gradient and metric are unaffected)" % (where, const, dv),
-                           finding_key="cl|value|offset=-prior-energy-of-constant-keys", detail=dict(det, where=where, diff=dv))
-            return bad("%s: KL value %.12g differs from the average Hamiltonian %.12g" % (where, got_v, val),
-                       finding_key="cl|value-mismatch|" + lab, detail=dict(det, where=where))
+                           finding_key="cl|value|offset=-prior-energy-of-constant-keys", detail=dict(det, where=where, diff=dv)))
+            else:
+                return bad("%s: KL value %.12g differs from the average Hamiltonian %.12g" % (where, got_v, val),
+                           finding_key="cl|value-mismatch|" + lab, detail=dict(det, where=where))
         gg = M.cl_flat(en.gradient, keys)
         if gg.shape != g.shape or not np.abs(gg - g).max(initial=0.) <= TOL * _scale(g):
             return bad("%s: KL gradient differs from the average gradient on the non-constant keys by %.3g" % (
@@ -260,6 +265,8 @@ def _run_cl(case):
                 return out
             mv = float(np.abs(m3[V] - p[V]).max())
             moved = mv if moved is None else min(moved, mv)
+    if pending:
+        return pending["offset"]
     nontrivial = bool(len(V)) and float(np.abs(res).max()) > 1e-3 and (moved or 0.) > 1e-6
     return ok(nontrivial=nontrivial, outcome="cl|%s|%s|%s" % (_mclass(spec), lab, "mirror" if mirror else "nomirror"),
               stats=dict(metric_columns=len(V) * (4 if len(V) else 1), points=4 if len(V) else 1), detail=det)
@@ -440,14 +447,14 @@ def _run_re(case):
         if ns and not np.array_equal(M.re_flat(s4._samples, ref, 1), R):
             return bad("samples.at(result) changed the residuals", finding_key="re|at|residuals-changed", detail=det)
     nontrivial = bool(nV) and (ns == 0 or float(np.abs(R).max()) > 1e-3) and moved > 1e-6
-    return ok(nontrivial=nontrivial, outcome="re|%s|%s|ns=%d|%s" % (_mclass(spec), lab, ns, vr),
+    return ok(nontrivial=nontrivial, outcome="re|%s|%s|%s%s" % (_mclass(spec), lab, vr, "|ns=0" if ns == 0 else ""),
               stats=dict(metric_columns=2 * n + nV, points=3), detail=det)
 
 
 def finish(run):
     have = list(run.outcomes)
     need = ["cl|nonlinear|3keys|const=some|pe|invariant", "cl|nonlinear|3keys|const=some|pe", "cl|nonlinear|field",
-            "re|nonlinear|3keys|const=some|pe", "re|nonlinear|3keys|const=none|ns=0", "re|nonlinear|3keys|const=none|ns=2"]
+            "re|nonlinear|3keys|const=some|pe", "re|nonlinear|3keys|const=none|eager|vmap|ns=0", "re|nonlinear|3keys|const=none|jit|vmap"]
     missing = [x for x in need if not any(h.startswith(x) for h in have)]
     if missing and not run.violations:
         run.violations.append((dict(vacuity=missing), bad("no passing case of class %s" % missing, finding_key="harness|vacuous-class")))
